@@ -118,15 +118,25 @@ def sandbox(root):
     return tempfile.mkdtemp(prefix="r_", dir=root)
 
 
-def yq(args, cwd, stdin=b""):
+def yq(args, cwd, stdin=b"", sink=None):
+    """sink: None = a pipe; "full" = /dev/full (every write fails with ENOSPC); "ro" = a descriptor opened read-only (EBADF)"""
     env = dict(os.environ, NO_COLOR="1")
     env.pop("YQ_VERIF_FAULT", None)
     env.pop("YQ_VERIF_TRACE", None)
+    out = subprocess.PIPE
+    fh = None
+    if sink == "full":
+        fh = out = open("/dev/full", "wb")
+    elif sink == "ro":
+        fh = out = open("/dev/null", "rb")
     try:
-        p = subprocess.run([vlib.YQ] + args, cwd=cwd, env=env, input=stdin, stdout=subprocess.PIPE, stderr=subprocess.PIPE, timeout=30)
-        return p.returncode, p.stdout, p.stderr
+        p = subprocess.run([vlib.YQ] + args, cwd=cwd, env=env, input=stdin, stdout=out, stderr=subprocess.PIPE, timeout=30)
+        return p.returncode, p.stdout or b"", p.stderr
     except subprocess.TimeoutExpired:
         return 99, b"", b"timeout"
+    finally:
+        if fh:
+            fh.close()
 
 
 # ---------------------------------------------------------------------------
@@ -292,11 +302,11 @@ def scenario_args(sc):
     return a + [EXPR + (" | [" if sc["badexpr"] else "")] + [f["name"] for f in sc["files"]]
 
 
-def run_scenario(root, sc):
+def run_scenario(root, sc, sink=None):
     d = sandbox(root)
     try:
         write_scenario(d, sc)
-        return yq(scenario_args(sc), d)
+        return yq(scenario_args(sc), d, sink=sink)
     finally:
         shutil.rmtree(d, ignore_errors=True)
 
@@ -305,7 +315,7 @@ def coq_evalout(results):
     return "(EvalOk [" + "; ".join("mkRes %d %s" % (r["id"], coq_node(r["v"])) for r in results) + "])"
 
 
-def coq_scenario(sc):
+def coq_scenario(sc, sink_ok=True):
     if sc["nullin"]:
         files, tbl = [], "[]"
         nullo = "(EvalOk [mkRes 900 %s; mkRes 901 %s])" % (coq_node(S("r900")), coq_node(S("r901")))
@@ -335,7 +345,7 @@ def coq_scenario(sc):
     cli = "(mkCli %s [] %s false [%s] false %s false false %s %s %s)" % (
         "true" if sc["all"] else "false", vlib.coq_str(sc["fmt"]), "; ".join(vlib.coq_str(n) for n in files),
         "true" if sc["nullin"] else "false", unwrap, "true" if sc["e"] else "false", "true" if sc["nul"] else "false")
-    return "(%s, %s, (%s, %s, %s))" % (cli, tbl, "false" if sc["badexpr"] else "true", nullo, allo)
+    return "(%s, %s, (%s, %s, %s), %s)" % (cli, tbl, "false" if sc["badexpr"] else "true", nullo, allo, "true" if sink_ok else "false")
 
 
 def all_results(sc):
@@ -404,6 +414,12 @@ def replay(rp):
             sc = rp["scenario"]
             rc, out, err = run_scenario(root, sc)
             return not scenario_oracle(sc, rc, out, err)
+        if rp.get("kind") == "sink":
+            case = [c for c in sink_cases() if c[0] == rp["case"]][0]
+            return sink_oracle(run_sink_case(root, case, None), run_sink_case(root, case, rp["sink"])) is None
+        if rp.get("kind") == "sink-run":
+            sc = rp["scenario"]
+            return sink_oracle(run_scenario(root, sc), run_scenario(root, sc, rp["sink"])) is None
         if rp.get("kind") == "e-flag":
             d = sandbox(root)
             open(os.path.join(d, "e.yml"), "w").write(rp["doc"])
@@ -412,6 +428,42 @@ def replay(rp):
         return False
     finally:
         shutil.rmtree(root, ignore_errors=True)
+
+
+def sink_cases():
+    """(name, args, input text): outputs below and above the 4096-byte buffer, failure on the last / a non-last result"""
+    big = "".join("- name: item-%04d-abcdefghijklmnopqrstuv\n" % i for i in range(200))
+    multi = "a: 1\n---\na: 2\n---\na: 3\n"
+    return [
+        ("scalar", [".a"], "a: 1\nb: [x, y]\n"), ("json-doc", ["-o=json", "."], "a: 1\nb: [x, y]\n"),
+        ("props-e", ["-e", "-o=props", "."], "a: 1\nb: [x, y]\n"), ("eval-all", ["ea", "[.a]"], multi),
+        ("multi-doc-stream", [".a"], multi), ("three-results", [".a, .a, .a"], "a: zz\n"),
+        ("big-6k", ["."], big), ("big-then-small", [".[0], ."], big), ("small-then-big", [".[0].name, ."], big),
+        ("csv", ["-o=csv", "."], "- [1, 2]\n- [3, 4]\n"), ("xml", ["-o=xml", "."], "a: {b: c}\n"), ("nul", ["-0", ".b[]"], "b: [x, y]\n"),
+        ("lua", ["-o=lua", "."], "a: 1\n"), ("shell", ["-o=shell", "."], "a: 1\n"), ("toml-scalar", ["-o=toml", ".a"], "a: 1\n"),
+    ]
+
+
+def run_sink_case(root, case, sink):
+    name, args, text = case
+    d = sandbox(root)
+    try:
+        open(os.path.join(d, "in.yml"), "w").write(text)
+        return yq(args + ["in.yml"], d, sink=sink)
+    finally:
+        shutil.rmtree(d, ignore_errors=True)
+
+
+def sink_oracle(normal, failed):
+    """a failed write => non-zero exit and a message on stderr (normal = the same run into a pipe)"""
+    rc0, out0, _ = normal
+    rc, _, err = failed
+    if rc0 == 0 and out0:
+        if rc == 0:
+            return "the output (%d bytes) could not be written, yet yq exits 0%s" % (len(out0), "" if err.strip() else " with empty stderr")
+        if not err.strip():
+            return "failed write of the output: exit %d without a message on stderr" % rc
+    return None
 
 
 def scenario_oracle(sc, rc, out, err):
@@ -551,15 +603,39 @@ def run(chk):
             for key, text in scenario_oracle(sc, rc, out, err):
                 report({"kind": "run", "scenario": sc, "rc": rc, "stdout": out.decode("utf-8", "replace")[:300]}, key,
                        "%s :: yq %s" % (text, " ".join(scenario_args(sc))))
-        mism, err = vlib.coq_mismatches(chk.workdir, "c19_run", IMPORTS + "\nDefinition run_shown (x : cli * list (str * finput) * (bool * evalout * evalout)) : list N :=\n"
-                                        "  match x with (c, tbl, (eok, nullo, allo)) => let o := run c (mkWorld (lookup_file tbl) eok nullo allo) in\n"
-                                        "  o_exit o :: (if o_stderr o then 1 else 0) :: (if o_usage o then 1 else 0) :: N.of_nat (length (o_shown o)) :: o_shown o end.",
-                                        "run_shown", cases, shard=max(60, len(cases) // vlib.NCPU + 1))
+        # ---- the same runs with an output that rejects every write (REAL write failures: /dev/full, read-only descriptor)
+        sink_idx = list(range(len(scs))) if thorough else list(range(0, len(scs), 2))
+        sink_kind = ["full" if i % 3 else "ro" for i in sink_idx]
+        sobs = list(pool.map(lambda t: run_scenario(root, scs[t[0]], t[1]), zip(sink_idx, sink_kind)))
+        dist["write_failure_runs"] = len(sink_idx)
+        sink_case_list = []
+        for i, kind, (rc, out, err) in zip(sink_idx, sink_kind, sobs):
+            sc = scs[i]
+            cases.append((coq_scenario(sc, sink_ok=False), [rc, 1 if err.strip() else 0, 0, 0]))
+            sink_case_list.append(i)
+            chk.count(("sink-run", sc["idx"], kind), nontrivial=bool(robs[i][1]))
+            why = sink_oracle(robs[i], (rc, out, err))
+            if why:
+                report({"kind": "sink-run", "scenario": sc, "sink": kind, "rc": rc, "stderr": err.decode("utf-8", "replace")[:200]}, None,
+                       "%s :: yq %s > %s" % (why, " ".join(scenario_args(sc)), "/dev/full" if kind == "full" else "(read-only fd)"))
+        for case in sink_cases():
+            normal = run_sink_case(root, case, None)
+            for kind in ("full", "ro"):
+                failed = run_sink_case(root, case, kind)
+                chk.count(("sink", case[0], kind), nontrivial=True,
+                          sample={"args": case[1], "stdout": kind, "bytes": len(normal[1]), "rc": failed[0]} if case[0] in ("scalar", "big-6k") and kind == "full" else None)
+                why = sink_oracle(normal, failed)
+                if why:
+                    report({"kind": "sink", "case": case[0], "args": case[1], "input": case[2], "sink": kind, "rc": failed[0]}, None,
+                           "%s :: yq %s in.yml > %s" % (why, " ".join(case[1]), "/dev/full" if kind == "full" else "(read-only fd)"))
+        mism, err = vlib.coq_mismatches(chk.workdir, "c19_run", IMPORTS, "c19_run_case", cases, shard=max(60, len(cases) // vlib.NCPU + 1))
         if err:
             broken.append("model evaluation failed (runs): " + err[-500:])
         else:
+            nsc = len(scs)
             for i, mo in mism:
-                disagreements.append(("run", " ".join(scenario_args(scs[i])) + " :: " + repr(scs[i]["files"])[:400], cases[i][1], list(mo)))
+                j = i if i < nsc else sink_case_list[i - nsc]
+                disagreements.append(("run" if i < nsc else "run with failing output", " ".join(scenario_args(scs[j])) + " :: " + repr(scs[j]["files"])[:400], cases[i][1], list(mo)))
         chk.extra["distribution"] = dist
         pool.shutdown()
     finally:
@@ -581,7 +657,9 @@ def run(chk):
              "debug log. (B) exhaustive table: %d result kinds x %d output formats x {plain, -0}; a cell is error / complete (every scalar leaf of "
              "the result is in stdout) / swallowed. (C) seeded runs of eval and eval-all over 1-3 files with 0-3 documents each, with missing "
              "files, undecodable documents, evaluation errors and unencodable results at any position x -e -n -N -r -0 -o; observables exit "
-             "status, stderr non-empty, which results are on stdout. Non-trivial: container kinds / multi-file or multi-document runs."
+             "status, stderr non-empty, which results are on stdout; half of them (all in the thorough tier) again with an output that rejects every write "
+             "(/dev/full, read-only descriptor), plus fixed cases below and above the 4096-byte buffer, failure on the last / a non-last result: a failed write => "
+             "non-zero exit and a message on stderr. Non-trivial: container kinds / multi-file or multi-document runs."
              % (len(FILENAMES), len(KINDS), len(FORMATS)),
         trusted=vlib.COMMON_TRUSTED + [
             "Spec/CliSpec.v (hand-written: expected results of a complete run, -e rule)",
